@@ -45,6 +45,12 @@ def gen_script(rng, hdr, tier):
         elif k < 0.82: toks.append("RS")
         elif k < 0.87: toks += ["ST", "P2"] + rng.choice((["RS"], ["SP%d" % rng.randrange(ln)], ["SR0"], []))
         else: toks.append("SP%d" % rng.choice(orders))
+    # orders entered out of index order (position jumps): the start times are not monotonic along the order list, so the direction in
+    # which xmp_seek_time searches matters (seeded change C17-seek-time-upward-walk-with-early-break) - seek to times around every order
+    tv = [t for t in hdr["time"][:ln] if t >= 0]
+    if any(x > y for x, y in zip(tv, tv[1:])):
+        for t in (times if tier == "thorough" or len(times) <= 20 else rng.sample(times, 20)):
+            play(); toks.append("SK%d" % t)
     play()
     return " ".join(toks)
 
@@ -145,6 +151,18 @@ def main():
             for i in range(160 if tier == "quick" else 6000):
                 fmt, s = gen_song(rng, i)
                 p = os.path.join(tmpd, "g%05d.%s" % (i, fmt)); open(p, "wb").write(modgen.WRITERS[fmt](s))
+                jobs.append((fmt, p, s, None))
+            # motif: four patterns played in the order 0, 2, 1, 3 through position jumps (orders entered out of index order)
+            for i, fmt in enumerate(("mod", "xm", "s3m", "it") if tier == "quick" else ("mod", "xm", "s3m", "it") * 3):
+                pats = []
+                for k, tgt in enumerate((2, 3, 1, None)):
+                    pt = modgen.empty_pattern(64 if fmt in ("mod", "s3m") else rng.choice((8, 16, 32)), 4)
+                    pt[0][0] = dict(note=25 + k, ins=1)
+                    last = rng.randrange(3, len(pt))
+                    if tgt is not None: pt[last][1] = dict(fx=('jump', tgt))
+                    pats.append(pt)
+                s = dict(chn=4, orders=[0, 1, 2, 3], patterns=pats, speed=rng.choice((2, 3, 6)), bpm=125, restart=0, name="out of order")
+                p = os.path.join(tmpd, "j%02d.%s" % (i, fmt)); open(p, "wb").write(modgen.WRITERS[fmt](s))
                 jobs.append((fmt, p, s, None))
             for cp in V.corpus_files(limit=120 if tier == "quick" else None, rng=rng):
                 jobs.append(("corpus", cp, None, None))
